@@ -196,15 +196,15 @@ impl PollWorld {
         self.in_run(volume) && self.script.lin(volume, seq) <= self.frontier
     }
 
-    fn listed(&self, volume: usize) -> Vec<ListedObject> {
-        (1..=55usize)
-            .filter(|s| self.visible(volume, *s))
-            .map(|s| ListedObject {
-                key: format!("{}/{}/{}", self.site, volume, chunk_name(volume, s)),
-                last_modified: upload_time(self.script.lin(volume, s)).format("%Y-%m-%dT%H:%M:%S.000Z").to_string(),
-                size: object_bytes(&self.script, volume, s).len().to_string(),
-            })
-            .collect()
+    fn listed_one(&self, volume: usize, s: usize) -> Option<ListedObject> {
+        if !self.visible(volume, s) {
+            return None;
+        }
+        Some(ListedObject {
+            key: format!("{}/{}/{}", self.site, volume, chunk_name(volume, s)),
+            last_modified: upload_time(self.script.lin(volume, s)).format("%Y-%m-%dT%H:%M:%S.000Z").to_string(),
+            size: "4096".to_string(),
+        })
     }
 
     fn error_doc(status: u16) -> Response {
@@ -225,52 +225,58 @@ impl World for PollWorld {
             let prefix = req.query_value("prefix").unwrap_or("").to_string();
             let max_keys = req.query_value("max-keys").and_then(|v| v.parse::<usize>().ok());
             logged.max_keys = max_keys;
-            let parts: Vec<&str> = prefix.split('/').collect();
-            let dir = if parts.len() == 3 && parts[0] == self.site && parts[2].is_empty() { parts[1].parse::<usize>().ok() } else { None };
+            // which directory the listing designates (leniently parsed: how the prefix is phrased is not part
+            // of the statement); the response itself follows S3's plain string-prefix / byte-order semantics
+            let dir = prefix.strip_prefix(&format!("{}/", self.site)).and_then(|rest| {
+                let digits: String = rest.chars().take_while(|c| c.is_ascii_digit()).collect();
+                digits.parse::<usize>().ok()
+            });
             logged.dir = dir;
-            match dir {
-                Some(d) if (1..=N_DIRS).contains(&d) => {
-                    let mut status = 200;
-                    // a polling-phase listing (not a max-keys=1 discovery probe) of the volume that is due next
-                    if max_keys != Some(1) {
-                        let (fv, fs) = self.script.pos(self.frontier);
-                        let next_volume = fv % N_DIRS + 1;
-                        if fs == 55 && d == next_volume && !self.visible(d, 1) {
-                            let e = self.script.entry(self.frontier + 1);
-                            if e.delay == NEVER {
-                                // stays empty
-                            } else if self.pending_used < e.delay {
-                                self.pending_used += 1;
-                            } else if self.list_transient_used < e.transient {
-                                self.list_transient_used += 1;
-                                status = 500;
-                            } else {
-                                self.frontier += e.ahead.clamp(1, 3) as usize;
-                                self.pending_used = 0;
-                                self.list_transient_used = 0;
-                                if e.ahead > 1 {
-                                    let t = self.script.entry(self.frontier).transient;
-                                    self.transient_left.insert(self.frontier, t);
-                                }
+            if let Some(d) = dir {
+                if !(1..=N_DIRS).contains(&d) {
+                    self.flags.push(format!("listing outside directories 1..=999: prefix {:?}", prefix));
+                }
+            }
+            let mut status = 200;
+            if let Some(d) = dir.filter(|d| (1..=N_DIRS).contains(d)) {
+                // a polling-phase listing (not a max-keys=1 discovery probe) of the volume that is due next
+                if max_keys != Some(1) {
+                    let (fv, fs) = self.script.pos(self.frontier);
+                    let next_volume = fv % N_DIRS + 1;
+                    if fs == 55 && d == next_volume && !self.visible(d, 1) {
+                        let e = self.script.entry(self.frontier + 1);
+                        if e.delay == NEVER {
+                            // stays empty
+                        } else if self.pending_used < e.delay {
+                            self.pending_used += 1;
+                        } else if self.list_transient_used < e.transient {
+                            self.list_transient_used += 1;
+                            status = 500;
+                        } else {
+                            self.frontier += e.ahead.clamp(1, 3) as usize;
+                            self.pending_used = 0;
+                            self.list_transient_used = 0;
+                            if e.ahead > 1 {
+                                let t = self.script.entry(self.frontier).transient;
+                                self.transient_left.insert(self.frontier, t);
                             }
                         }
                     }
-                    if status != 200 {
-                        logged.status = status;
-                        Self::error_doc(status)
-                    } else {
-                        let mut objects = self.listed(d);
-                        let total = objects.len();
-                        if let Some(m) = max_keys {
-                            objects.truncate(m);
-                        }
-                        Response::xml(list_document(req.bucket(), &prefix, &objects, objects.len() < total, false, true, max_keys))
-                    }
                 }
-                _ => {
-                    self.flags.push(format!("listing outside directories 1..=999: prefix {:?}", prefix));
-                    Response::xml(list_document(req.bucket(), &prefix, &[], false, false, false, max_keys))
-                }
+            }
+            if status != 200 {
+                logged.status = status;
+                Self::error_doc(status)
+            } else {
+                let mut objects: Vec<ListedObject> = (0..=self.frontier)
+                    .map(|lin| self.script.pos(lin))
+                    .flat_map(|(v, sq)| self.listed_one(v, sq))
+                    .filter(|o| o.key.starts_with(&prefix))
+                    .collect();
+                objects.sort_by(|a, b| a.key.as_bytes().cmp(b.key.as_bytes()));
+                let total = objects.len();
+                objects.truncate(max_keys.unwrap_or(1000).min(1000));
+                Response::xml(list_document(req.bucket(), &prefix, &objects, objects.len() < total, false, true, max_keys))
             }
         } else {
             // GET SITE/<dir>/<name>
